@@ -640,6 +640,9 @@ def create_sockets_carried(src: Path, ex: Any) -> Optional[List[str]]:
     except Unread as e:
         ex.fail(item, str(e))
         return None
+    except Exception as e:                                     # an AST shape the analysis trips over: not read, never a crash
+        ex.fail(item, f"{type(e).__name__}: {e}")
+        return None
     # the accumulator: bound in front of the loop, only ever `<acc>.append(<one value>)` inside it
     uses = [n for st in loop.body for n in ast.walk(st) if isinstance(n, ast.Name) and n.id == acc]
     appends = [n for st in loop.body for n in ast.walk(st) if isinstance(n, ast.Expr) and isinstance(n.value, ast.Call)
